@@ -302,7 +302,17 @@ def _sha_finish_blocks(fin, p0):
                 return
             if l.get("k") == "idx" and is_buf(l["b"], "u64"):
                 i = ev(l["i"])
-                is_len = op == "=" and any("sha256.size" in ex.show(x) for x in ex.walk(e["r"]))
+                def _mentions_size(n):
+                    from sa import guard as _guard
+                    for x in ex.walk(n):
+                        if "sha256.size" in ex.show(x):
+                            return True
+                        if x.get("k") == "var" and x.get("s") == "l":
+                            d_ = _guard.single_def(fin, x.get("id"))
+                            if d_ is not None and any("sha256.size" in ex.show(y) for y in ex.walk(d_)):
+                                return True
+                    return False
+                is_len = op == "=" and _mentions_size(e["r"])
                 store(8 * i, 8, "L" if is_len else "X")
                 return
             if l.get("k") == "idx" and is_buf(l["b"], "u32"):
@@ -514,8 +524,26 @@ def check_sha(ck, prog):
             if "u64[7]" in ex.show(l) and r is not None and any(
                     x.get("k") == "call" and "bswap64" in (x.get("fn") or "") for x in ex.walk(r)):
                 okf = True
-    mul8 = any(ex.show(n).replace(" ", "") in ("check->state.sha256.size*=8",)
+    mul8 = any(ex.show(l) == "check->state.sha256.size" and op == "*=" and ex.const_val(r) == 8
                for b, i, e in fin.iter_elems() for (l, r, op, n) in ex.writes(e))
+    if not mul8:
+        # ... or the value that goes into the length field is (a local holding) size * 8 / size << 3
+        from sa import guard as _guard
+        for b, i, e in fin.iter_elems():
+            for (l, r, op, node) in ex.writes(e):
+                if "u64[7]" in ex.show(l) and r is not None:
+                    exprs = [r]
+                    for x in ex.walk(r):
+                        if x.get("k") == "var" and x.get("s") == "l":
+                            d_ = _guard.single_def(fin, x.get("id"))
+                            if d_ is not None:
+                                exprs.append(d_)
+                    for ee in exprs:
+                        for x in ex.walk(ee):
+                            if x.get("k") == "bin" and "sha256.size" in ex.show(x) and (
+                                    (x["op"] == "*" and 8 in (ex.const_val(x["l"]), ex.const_val(x["r"]))) or
+                                    (x["op"] == "<<" and ex.const_val(x["r"]) == 3)):
+                                mul8 = True
     # padding: after the 0x80 byte, a second block is needed exactly when fewer than 8 bytes are left for the length,
     # i.e. when (size mod 64) >= 56.  Finite-domain evaluation of the padding code for all 64 residues.
     from sa import fd as _fd
@@ -838,11 +866,23 @@ def check_datapath(ck, prog):
     for b in f.blocks.values():
         if b.id in cfg.reachable(f, cfg.succs(f, b.id)):
             in_loop.add(b.id)
-    cs = [(b.id, ex.deref(e)) for b, i, e in f.iter_elems() if ex.deref(e).get("k") == "decl" and ex.deref(e)["n"] == "copy_start"]
+    # the names of the locals are taken from the memcpy() into the block buffer: memcpy(check->buffer.u8 + OFF, buf, LEN)
+    offn = lenn = None
+    for b, i, e in f.iter_elems():
+        for c in ex.calls(e, into_refs=False):
+            if c.get("fn") in ("memcpy", "__builtin_memcpy", "__builtin___memcpy_chk") and len(c["args"]) >= 3:
+                d0 = ex.strip(c["args"][0])
+                if d0 is not None and d0.get("k") == "bin" and d0["op"] == "+" and "buffer.u8" in ex.show(d0["l"]):
+                    o_, l_ = ex.strip(d0["r"]), ex.strip(c["args"][2])
+                    if o_ is not None and o_.get("k") == "var" and l_ is not None and l_.get("k") == "var":
+                        offn, lenn = o_["n"], l_["n"]
+    if offn is None:
+        raise AnalysisBroken("lzma_sha256_update: memcpy(check->buffer.u8 + offset, buf, length) with local offset/length not found")
+    cs = [(b.id, ex.deref(e)) for b, i, e in f.iter_elems() if ex.deref(e).get("k") == "decl" and ex.deref(e)["n"] == offn]
     adv = [(b.id, ex.show(n), ex.show(r)) for b, i, e in f.iter_elems() for (l, r, op, n) in ex.writes(e)
            if ex.show(l) == "check->state.sha256.size" and op == "+="]
     ok = len(cs) == 1 and cs[0][0] in in_loop and cs[0][1].get("init") is not None and \
-        "sha256.size" in ex.show(cs[0][1]["init"]) and len(adv) == 1 and adv[0][0] in in_loop and adv[0][2] == "copy_size"
+        "sha256.size" in ex.show(cs[0][1]["init"]) and len(adv) == 1 and adv[0][0] in in_loop and adv[0][2] == lenn
     ck.ob("C14-PATH", "sha256_update:offset", ok, common.where(f),
           "lzma_sha256_update: copy_start = size & 63 is recomputed in every iteration and the byte count advances by "
           "copy_size inside the loop" if ok else
